@@ -140,7 +140,8 @@ fn main() {
         }
         Some("replay") => {
             let Some(path) = args.get(2) else { usage() };
-            std::process::exit(runner::replay_file(&checks, path));
+            let history = args.get(3).map(|a| a == "--history").unwrap_or(false);
+            std::process::exit(runner::replay_file(&checks, path, history));
         }
         _ => usage(),
     }
